@@ -128,6 +128,19 @@ def ctx_histories(rng, binary, n_random=2, dim=2):
     return hs
 
 
+def ctx_histories_rich(rng, binary, dim=2):
+    """contextual histories with arm changes in between: add an arm and train it, remove an arm, train on, refit"""
+    R = (lambda v: [1 if x >= 5 else 0 for x in v]) if binary else (lambda v: v)
+    hs = ctx_histories(rng, binary, 1, dim)
+    a = rand_rows(rng, 9, ARMS, binary, dim)
+    b = rand_rows(rng, 5, ARMS + [4], binary, dim)
+    b[0][0] = 4
+    c = rand_rows(rng, 4, [1, 3, 4], binary, dim)
+    d = rand_rows(rng, 6, [1, 3, 4], binary, dim)
+    hs.append([['fit'] + a, ['add_arm', 4], ['partial_fit'] + b, ['remove_arm', 2], ['partial_fit'] + c, ['fit'] + d])
+    return hs
+
+
 def compare_maps(prop, what, case, got, exp, arms, where):
     if list(got.keys()) != list(arms):
         raise Failure(prop, what + ': keys differ from the arms', case, list(got.keys()), list(arms), where)
@@ -224,7 +237,7 @@ def check_C03(env):
         for lp in CF_OUT + LIN_DET[:2]:
             if not in_focus(env, lp, nbh):
                 continue
-            for h in ctx_histories(rng, False, n_random=1):
+            for h in ctx_histories_rich(rng, False):
                 case = {'arms': ARMS, 'lp': lp, 'np': nbh, 'calls': h}
                 mab = build(case)
                 ref = oracle.RefBandit(ARMS, lp, nbh)
@@ -1056,7 +1069,7 @@ def check_C11(env):
             nbh = ['LSHNearest', {'n_dimensions': nd, 'n_tables': nt}]
             if not in_focus(env, lp, nbh):
                 continue
-            for h in ctx_histories(rng, False, 1):
+            for h in ctx_histories_rich(rng, False):
                 for nj in (1, 2):
                     case = {'arms': ARMS, 'lp': lp, 'np': nbh, 'calls': h, 'n_jobs': nj}
                     m = build(case)
@@ -1114,7 +1127,7 @@ def check_C12(env):
         for nbh in NBH_OTHER[1:3]:
             if not in_focus(env, lp, nbh):
                 continue
-            for h in ctx_histories(rng, False, 1):
+            for h in ctx_histories_rich(rng, False):
                 case = {'arms': ARMS, 'lp': lp, 'np': nbh, 'calls': h}
                 m = build(case)
                 ref = oracle.RefBandit(ARMS, lp, nbh)
